@@ -70,7 +70,10 @@ theorem insertRegion_head (r : Uefi.Region) (l : List Uefi.Region) (h : âˆ€ x âˆ
     have := h x List.mem_cons_self
     simp only [Uefi.insertRegion]
     simp only [baseOf] at this
-    simp only [this, if_true]
+    -- works for the shared `insertRegion` as it is (`<`) and after the proposed stable variant (`â‰¤`)
+    first
+      | simp only [this, if_true]
+      | simp only [Nat.le_of_lt this, if_true]
 
 /-- the shared model's sort is the identity on a list whose keys increase strictly -/
 theorem sortRegions_sorted (l : List Uefi.Region) (h : l.Pairwise (fun a b => baseOf a < baseOf b)) :
